@@ -19,26 +19,26 @@ package pypi
 //@   ensures all-equal: (forall j int :: 0 <= j ==> pad(a, j) == pad(b, j)) ==> result == 0   [C03 C09]
 
 //@ func normalizePrereleaseType
-//@   ensures range: 0 <= result && result <= 3     [C09]
+//@   ensures range: 0 <= result && result <= 3     [C03 C09]
 //@   ensures a: strings.ToLower(preType) == "a" || strings.ToLower(preType) == "alpha" ==> result == 1     [C09]
 //@   ensures b: strings.ToLower(preType) == "b" || strings.ToLower(preType) == "beta" ==> result == 2      [C09]
 //@   ensures rc: strings.ToLower(preType) == "c" || strings.ToLower(preType) == "rc" ==> result == 3       [C09]
 
 //@ func comparePrereleases
 //@   comparator (aPre, aNum) ~ (bPre, bNum)               [C01]
-//@   ensures none: aPre == "" && bPre == "" ==> result == 0                                               [C09]
-//@   ensures final-wins: aPre == "" && bPre != "" ==> result == 1                                         [C09]
-//@   ensures pre-loses: aPre != "" && bPre == "" ==> result == -1                                         [C09]
-//@   ensures phase: aPre != "" && bPre != "" && normalizePrereleaseType(aPre) != normalizePrereleaseType(bPre) ==> result == (normalizePrereleaseType(aPre) < normalizePrereleaseType(bPre) ? -1 : 1)   [C09]
-//@   ensures number: aPre != "" && bPre != "" && normalizePrereleaseType(aPre) == normalizePrereleaseType(bPre) ==> result == (aNum < bNum ? -1 : (aNum > bNum ? 1 : 0))   [C09]
+//@   ensures none: aPre == "" && bPre == "" ==> result == 0                                               [C03 C09]
+//@   ensures final-wins: aPre == "" && bPre != "" ==> result == 1                                         [C03 C09]
+//@   ensures pre-loses: aPre != "" && bPre == "" ==> result == -1                                         [C03 C09]
+//@   ensures phase: aPre != "" && bPre != "" && normalizePrereleaseType(aPre) != normalizePrereleaseType(bPre) ==> result == (normalizePrereleaseType(aPre) < normalizePrereleaseType(bPre) ? -1 : 1)   [C03 C09]
+//@   ensures number: aPre != "" && bPre != "" && normalizePrereleaseType(aPre) == normalizePrereleaseType(bPre) ==> result == (aNum < bNum ? -1 : (aNum > bNum ? 1 : 0))   [C03 C09]
 
 //@ func comparePostReleases
 //@   comparator a ~ b                                     [C01]
-//@   ensures absent-is-lowest: a >= -1 && b >= -1 ==> result == (a < b ? -1 : (a > b ? 1 : 0))           [C09]
+//@   ensures absent-is-lowest: a >= -1 && b >= -1 ==> result == (a < b ? -1 : (a > b ? 1 : 0))           [C03 C09]
 
 //@ func compareDevReleases
 //@   comparator a ~ b                                     [C01]
-//@   ensures absent-is-highest: a >= -1 && b >= -1 ==> result == (a == b ? 0 : ((a == -1 || (b != -1 && a > b)) ? 1 : -1))   [C09]
+//@   ensures absent-is-highest: a >= -1 && b >= -1 ==> result == (a == b ? 0 : ((a == -1 || (b != -1 && a > b)) ? 1 : -1))   [C03 C09]
 
 // PEP 440 ordering within one release: X.devN (no pre, no post) < aN < bN < rcN < X (final) < X.postN, and
 // a .devN of any phase sorts immediately before that phase; -1 encodes "absent" for post and dev.
